@@ -11,7 +11,9 @@ import time
 
 import z3
 
-REPO_PREFIX = "/repo/python/"
+import os
+
+REPO_PREFIX = os.environ.get("VERIF_REPO", "/repo").rstrip("/") + "/python/"
 
 
 class PathAbort(BaseException):
